@@ -480,26 +480,8 @@ impl<'r, D: Doc> Node<'r, D> {
     })
   }
 
-  #[cfg(not(target_arch = "wasm32"))]
-  pub fn prev_all(&self) -> impl Iterator<Item = Node<'r, D>> + '_ {
-    // if root is none, use self as fallback to return a type-stable Iterator
-    let parent = self.parent();
-    // the root node has no siblings
-    let has_parent = parent.is_some();
-    let node = parent.unwrap_or_else(|| self.clone());
-    let mut cursor = node.inner.walk();
-    cursor.goto_first_child_for_byte(self.inner.start_byte());
-    std::iter::from_fn(move || {
-      if has_parent && cursor.goto_previous_sibling() {
-        Some(self.root.adopt(cursor.node()))
-      } else {
-        None
-      }
-    })
-  }
-
-  // wasm32 has wrong goto_first_child_for_byte
-  #[cfg(target_arch = "wasm32")]
+  // TreeCursor::goto_previous_sibling returns wrong nodes (hidden wrappers, non-siblings)
+  // next to comments/extras and ERROR nodes, so walk with prev_sibling on every target.
   pub fn prev_all(&self) -> impl Iterator<Item = Node<'r, D>> + '_ {
     let mut node = self.clone();
     std::iter::from_fn(move || {
